@@ -51,4 +51,9 @@ TEXT = {
   "level_text": "For messages, metadata containers and pooled sockets a generated dirtying history is followed by the documented recycle path and a generated next-user history that is applied to the recycled and to a fresh object; every public getter and the packed bytes must agree after every step. For handler contexts (black box) generated dirty requests (reply metadata, codec, pipe, swap entries, error status, large bodies, pushes in both directions) precede a probe request whose handler records everything it can observe and whose reply frame is captured from the wire.",
   "level_note": "Pool identity is not guaranteed by sync.Pool; reuse is measured and reported, and the reset functions are also driven directly.",
  },
+ "C06": {
+  "technique": "property-based hostile byte strings at protocol and live-session level (rapid) + exhaustive truncation-offset enumeration",
+  "level_text": "Protocol level: random / mutated / truncated / length-boundary / inner-length / spliced / duplicated / bare-announcement byte strings are fed to each protocol's Unpack under read limits 64..65536 with the allocation around the call measured and, for size-prefixed protocols, the bytes consumed after an over-limit announcement counted; HTTP gets text-level announcements (Content-Length, endless lines, header floods). Every proper prefix of six fixed valid frames per protocol is enumerated (complete). Session level: a live serving or calling session (with pending calls) of a real peer receives generated hostile chunks then EOF; the close notification must fire, pending calls complete exactly once, Close returns, the index forgets the session and a control session on the same peer works before, during and after; a process crash is reported from the journalled case.",
+  "level_note": "TotalAlloc is a coarse, over-approximating monitor with deliberately wide slack. Thrift: element lengths inside a frame are decoded by the third-party thrift library, which allocates what is announced (listed known finding); the allocation oracle is suspended for the thrift protocols while that finding is listed, and inner-length corruption classes are steered away and counted.",
+ },
 }
